@@ -13,6 +13,7 @@ structure D where
   held : List (List Nat) := []
   hs : List Bool := [true]
   hook : Bool := false      -- `hook` case: the signal does not exist until the first `hlisten`
+  hooked : Bool := false    -- listener 0 is the hook_up listener: its emitter lives in its own frame (not assignable)
 
 def outStr : Out → String
   | Out.val v => s!"v{v}"
@@ -87,7 +88,7 @@ def doLine (d : D) (ws : List String) : D × String :=
               | _ => acc) (s1, [], [])
           let s3 := if keep then s2 else st s2 Op.dropHandle
           let q3 := if keep then q else q ++ newRel s2 s3
-          ({ d with s := resumeAll s3 q3, hook := false, hs := [keep] },
+          ({ d with s := resumeAll s3 q3, hook := false, hooked := true, hs := [keep] },
             match r with
             | Res.id l => s!"{kind} L{l}" ++ (if txt.isEmpty then "" else " rel=" ++ joinWith "," txt)
             | _ => "bad-op")
@@ -98,6 +99,35 @@ def doLine (d : D) (ws : List String) : D × String :=
   | ["listen", sc] =>
       let (s1, r) := stepX s (Op.listen (parseScript sc))
       ({ d with s := s1 }, match r with | Res.id l => s!"listen L{l}" | _ => "bad-op")
+  | ["alisten", sc] =>
+      let (s1, r) := stepX s (Op.listen (parseScript sc))
+      ({ d with s := s1 }, match r with | Res.id l => s!"alisten L{l}" | _ => "bad-op")
+  | ["connect0", n] =>
+      let (s1, r) := stepX s (Op.connect0 (n.toNat?.getD 0))
+      ({ d with s := s1 }, match r with | Res.id l => s!"connect0 C{l}" | _ => "bad-op")
+  | "assign" :: l :: src :: rest =>
+      -- the harness owns the emitters of the plain coroutine listeners only
+      let hasEm := fun (k : Nat) => k < s.next && !s.isCb k && !(d.hooked && k == 0)
+      match l.toNat? with
+      | none => (d, "bad-op")
+      | some l =>
+        if !hasEm l then (d, "bad-op") else
+        let b : Option Bool :=
+          if src == "live" then some true
+          else if src == "none" || src == "moved" then some false
+          else if src == "self" then some (s.conn l)
+          else if src == "copy" then
+            match (rest.headD "").toNat? with
+            | some k => if hasEm k then some (s.conn k) else none
+            | none => none
+          else none
+        match b with
+        | none => (d, "bad-op")
+        | some b =>
+          let (s1, r) := stepX s (Op.assign l b)
+          match r with
+          | Res.unit => ({ d with s := s1 }, "assign")
+          | _ => (d, "bad-op")
   | ["listen0", sc] =>
       let (s1, r) := stepX s (Op.listen0 (parseScript sc))
       ({ d with s := s1 }, match r with | Res.id l => s!"listen0 L{l}" | _ => "bad-op")
